@@ -26,7 +26,10 @@ WEAK = {  # switch -> the invariant TLC must refute with it (checked alone: dete
     "NilSlotAddressUnchecked": ["CleanHandover"],
     # bpRequester.reset counts a blockless requester as pending AGAIN: pool.numPending leaks, and at
     # maxPendingRequests no requester is created any more (scaled limits in the cfg)
-    "RedoAlwaysCountsPending": ["PendingCounterExact"],   # a genuine nil precommit re-labelled with another validator's address
+    "RedoAlwaysCountsPending": ["PendingCounterExact"],
+    # bpRequester.setBlock takes a block from the peer asked before the last reset: the requester has ONE owner,
+    # the block of the old (lying) peer is attributed to the newly asked (honest) one
+    "AcceptsFromPreviousPeer": ["AcceptOnlyFromAsked"],   # a genuine nil precommit re-labelled with another validator's address
     # ValidateBlock(first) and the part-set-header comparison each catch a block whose LastCommit differs only in
     # fields Commit.Hash() does not cover (commit height / BlockID); the property breaks only when BOTH are gone
     "NoValidateNoPartSet": ["OnlyCanonical"],
@@ -98,6 +101,52 @@ def sched_status(T):
     return out
 
 
+def sched_reassign(T):
+    """A requester is re-assigned while the answer of the peer it asked before is still on its way: liar l1 is
+    the only peer for h and stays silent; the honest peer joins; l1 narrows its range so that it is not eligible
+    for h any more; the requester's retry timer fires and h is asked from the honest peer; THEN l1's late answer
+    for h arrives (wrong block / padded commit / even the right block) -- before the honest peer's."""
+    out = []
+    for kind in ["W", "H", "padBad", "WC", "noQuorum"]:
+        for h in range(2, T):
+            # (l1 claims the tip at first: with a low-lying liar as the only known peer the node would
+            # legitimately leave the sync at once)
+            steps = [{"a": "Join", "p": "l1"}, {"a": "Status", "p": "l1", "base": h, "height": T},
+                     {"a": "WaitAsked", "p": "l1", "h": h},
+                     {"a": "Join", "p": "h1"}, {"a": "Status", "p": "h1", "base": 1, "height": T},
+                     {"a": "Status", "p": "l1", "base": 1, "height": h - 1},
+                     {"a": "Retry", "h": h}, {"a": "WaitAsked", "p": "h1", "h": h},
+                     {"a": "Response", "p": "l1", "h": h, "kind": kind}]
+            out.append({"id": "reassign-%s-%d" % (kind, h), "src": "reassign", "T": T, "peers": P2, "steps": steps})
+    # the same with the late answer arriving after the honest peer has delivered the neighbours
+    for kind in ["W", "padBad"]:
+        h = T - 1
+        steps = [{"a": "Join", "p": "l1"}, {"a": "Status", "p": "l1", "base": h, "height": h},
+                 {"a": "WaitAsked", "p": "l1", "h": h},
+                 {"a": "Join", "p": "h1"}, {"a": "Status", "p": "h1", "base": 1, "height": T},
+                 {"a": "WaitAsked", "p": "h1", "h": T}, {"a": "Response", "p": "h1", "h": T, "kind": "H"},
+                 {"a": "Status", "p": "l1", "base": 1, "height": h - 1},
+                 {"a": "Retry", "h": h}, {"a": "WaitAsked", "p": "h1", "h": h},
+                 {"a": "Response", "p": "l1", "h": h, "kind": kind}]
+        out.append({"id": "reassign-late-%s-%d" % (kind, h), "src": "reassign", "T": T, "peers": P2, "steps": steps})
+    return out
+
+
+def sched_shrink(T):
+    """A liar is given the whole window, then narrows its advertised range to [T,T] and only then answers:
+    it owns requesters (and delivers blocks) outside its CURRENT range.  When it is caught with a bad block
+    every one of its requests has to be redone, not only those inside the range it claims now."""
+    out = []
+    for kind in ["W", "badEarly", "padBad"]:
+        for bad in range(2, T):
+            steps = [{"a": "Join", "p": "l1"}, {"a": "Status", "p": "l1", "base": 1, "height": T},
+                     {"a": "WaitReq", "p": "l1", "h": T}, {"a": "Status", "p": "l1", "base": T, "height": T}]
+            steps += [{"a": "Response", "p": "l1", "h": k, "kind": kind if k == bad else "H"} for k in range(T, 0, -1)]
+            steps += [{"a": "Join", "p": "h1"}, {"a": "Status", "p": "h1", "base": 1, "height": T}]
+            out.append({"id": "shrink-%s-%d" % (kind, bad), "src": "shrink", "T": T, "peers": P2, "steps": steps})
+    return out
+
+
 CHURN_T, CHURN_W, CHURN_ROUNDS, CHURN_TMAX = 24, 21, 31, 26
 
 
@@ -164,6 +213,8 @@ def steps_of_acts(acts):
             steps.append({"a": "Response", "p": a["p"], "h": a["h"], "kind": "none"})
         elif n == "Timeout":
             steps.append({"a": "Timeout", "p": a["p"]})
+        elif n == "Retry":
+            steps.append({"a": "Retry", "h": a["h"]})
     return steps
 
 
@@ -280,8 +331,8 @@ def run(ctx):
     binp = ctx.go_build_test("blockchain/v0", HARNESS)
 
     # ---- 1. design spec: exhaustive configs, non-vacuity, liveness -------------------------
-    exh = ["C13_small.cfg", "C13_liars.cfg", "C13_pending.cfg"] if quick else \
-          ["C13_small.cfg", "C13_t4.cfg", "C13_liars.cfg", "C13_pending.cfg", "C13_quick.cfg"]
+    exh = ["C13_small.cfg", "C13_liars.cfg", "C13_pending.cfg", "C13_retry.cfg"] if quick else \
+          ["C13_small.cfg", "C13_t4.cfg", "C13_liars.cfg", "C13_pending.cfg", "C13_retry.cfg", "C13_quick.cfg"]
     fast = os.environ.get("VERIF_C13_FAST") == "1"      # development only: skip the exhaustive configs
     if fast:
         exh = ["C13_small.cfg"]
@@ -379,11 +430,11 @@ def run(ctx):
     # ---- 3. run on the real code -----------------------------------------------------------
     batches = []
     if quick:
-        batches.append(("A", VALS_A, sched_churn() + sched_matrix(4) + sched_late(4) + sched_status(4) + attack + sims + sched_pairs(4, rng, 16)
+        batches.append(("A", VALS_A, sched_churn() + sched_reassign(4) + sched_shrink(4) + sched_matrix(4) + sched_late(4) + sched_status(4) + attack + sims + sched_pairs(4, rng, 16)
                         + sched_random(seed, 30)))
-        batches.append(("C", VALS_C, sched_matrix(3)[::2] + sched_late(3) + sched_random(seed + 1, 16)))
+        batches.append(("C", VALS_C, sched_matrix(3)[::2] + sched_late(3) + sched_reassign(3) + sched_random(seed + 1, 16)))
     else:
-        batches.append(("A", VALS_A, sched_churn() + sched_matrix(4) + sched_matrix(5) + sched_late(4) + sched_late(5) + sched_status(4) + sched_status(5) + attack + sims
+        batches.append(("A", VALS_A, sched_churn() + sched_reassign(4) + sched_reassign(5) + sched_shrink(4) + sched_shrink(5) + sched_matrix(4) + sched_matrix(5) + sched_late(4) + sched_late(5) + sched_status(4) + sched_status(5) + attack + sims
                         + sched_pairs(4, rng, 150) + sched_random(seed, 350)))
         batches.append(("C", VALS_C, sched_matrix(4) + sched_late(4) + sched_pairs(3, rng, 50) + sched_random(seed + 1, 150)))
         batches.append(("B", VALS_B, sched_matrix(3) + sched_late(3) + sched_random(seed + 2, 60)))
